@@ -14,18 +14,30 @@ func vElectionNode(n int) *Raft {
 	return r
 }
 
-//verif:check C01 stubs=env,valuefile reach=end,requests desc="candidate.startElection: needs a voter; term+1 and self-vote durable before any request is built; votesNeeded = quorum of latest config; fresh reply channel holding only the self vote; one request per other voter carrying the new term" bounds="configurations of n<=4 nodes with symbolic voter flags/actions; all 64-bit terms"
+//verif:check C01 stubs=env,valuefile reach=end,requests,retry desc="candidate.init / candidate.onTimeout -> startElection: needs a voter; term+1 and self-vote durable before any request is built; votesNeeded = quorum of latest config; fresh reply channel holding only the self vote; one request per other voter carrying the new term" bounds="configurations of n<=4 nodes with symbolic voter flags/actions; all 64-bit terms"
 func VH_C01_startElection() {
 	n := 1 + vChoice(4)
 	r := vElectionNode(n)
 	vAssume(r.configs.Latest.isVoter(r.nid))
 	vAssume(r.term < ^uint64(0))
+	t0 := r.term
 	r.state = Candidate
 	c := r.cnd
-	old := c.respCh
-	t0 := r.term
 	c.transfer = vBool("cnd.transfer")
-	c.startElection()
+	// elections are started by the state loop through candidate.init (on entering the state) and candidate.onTimeout
+	// (every retry). Run the first one, and on half of the paths a retry after it, and look at the last election started.
+	c.init()
+	if vChoice(2) == 1 {
+		vReach("retry")
+		first := c.respCh
+		vAssume(r.term < ^uint64(0))
+		nsp := vNumSpawned()
+		c.onTimeout()
+		vAssert(c.respCh != first, "E1-fresh-reply-channel-per-election")
+		vSpawnBase = nsp
+		t0 = r.term - 1
+	}
+	old := (chan rpcResponse)(nil)
 	dt, dv := vDurable(".term")
 	vAssert(dt == t0+1 && dv == r.nid, "E1-selfvote-durable")
 	vAssert(r.term == t0+1 && r.votedFor == r.nid, "E1-selfvote-in-memory")
@@ -40,7 +52,7 @@ func VH_C01_startElection() {
 	vAssert(len(c.respCh) == 1, "E1-only-self-vote-queued")
 	self := <-c.respCh
 	vAssert(self.from == r.nid && self.err == nil && self.getResult() == success && self.getTerm() == t0+1, "E1-self-vote-shape")
-	vAssert(vNumSpawned() == voters-1, "E1-one-request-per-other-voter")
+	vAssert(vNumSpawned()-vSpawnBase == voters-1, "E1-one-request-per-other-voter")
 	if vNumSpawned() > 0 {
 		vReach("requests")
 	}
@@ -113,6 +125,8 @@ func VH_C01_quorum_intersection() {
 	vAssert(vImp(vAnd(n1 >= uint64(q1), n2 >= uint64(q2)), common), "Q1-quorums-intersect")
 	vReach("end")
 }
+
+var vSpawnBase int
 
 // ---- C11 ----
 
